@@ -35,6 +35,16 @@ M = [
  ('gauss-order', 'mininec/mininec.py', "        gauss_n [np.logical_and (g_idx, t >  6)] = 4", "        gauss_n [np.logical_and (g_idx, t >  3)] = 2", ['C02']),
  ('sl-swap', 'mininec/mininec.py', "            u12 [c]    = (sp [c] - u56 [c]) / sl [..., 1][c]", "            u12 [c]    = (sp [c] - u56 [c]) / sl [..., 0][c]", ['C02', 'C06']),
  ('report-current-phase', 'mininec/mininec.py', "                c = self.current [k]\n                a = np.angle (c) / np.pi * 180", "                c = self.current [k]\n                a = np.angle (c) / 3.1416 * 180", ['C19']),
+ # --- second batch: writers and option parsing
+ ('report-power-mode', 'mininec/mininec.py', "              , format_float ([self.power], 1) [0]\n              )\n            )\n        return '\\n'.join (r)\n    # end def as_mininec\n\n    def as_mininec_short", "              , format_float ([self.power * 0.5], 1) [0]\n              )\n            )\n        return '\\n'.join (r)\n    # end def as_mininec\n\n    def as_mininec_short", ['C19', 'C07']),
+ ('basic-laplace-version', 'mininec/mininec.py', "                if args.mininec_version != '9':\n                    f = 1", "                if args.mininec_version == '9':\n                    f = 1", ['C18']),
+ ('cmdline-laplace-swap', 'mininec/mininec.py', "        r.append ('--laplace-load-b=%s' % ','.join ('%.8g' % b for b in self.b))\n        r.append ('--laplace-load-a=%s' % ','.join ('%.8g' % a for a in self.a))", "        r.append ('--laplace-load-b=%s' % ','.join ('%.8g' % b for b in self.a))\n        r.append ('--laplace-load-a=%s' % ','.join ('%.8g' % a for a in self.b))", ['C15']),
+ ('cmdline-trap-precision', 'mininec/mininec.py', "        r.append ('--trap-load=%g,%g,%g' % (self.r, self.l, self.c))", "        r.append ('--trap-load=%.2g,%.2g,%.2g' % (self.r, self.l, self.c))", ['C15']),
+ ('cmdline-insulation-tag', 'mininec/mininec.py', "        s = '--insulation-load=%g,%g' % (self.radius, self.epsilon_r)\n        if not self.all_wires:\n            s = s + ',%d' % self.geobj.tag", "        s = '--insulation-load=%g,%g' % (self.radius, self.epsilon_r)\n        if not self.all_wires:\n            s = s + ',%d' % (self.geobj.n + 1)", ['C15']),
+ ('cmdline-skin-res-as-cond', 'mininec/mininec.py', "            s = '--skin-effect-resistivity=%g' % self.resistivity", "            s = '--skin-effect-conductivity=%g' % self.resistivity", ['C15']),
+ ('report-laplace-factor', 'mininec/mininec.py', "                # Factor, L, C are in µH, µF\n                f = 10 ** (6 * d)\n                s = 'NUMERATOR", "                # Factor, L, C are in µH, µF\n                f = 10 ** (3 * d)\n                s = 'NUMERATOR", ['C19']),
+ ('short-source-phase', 'mininec/mininec.py', "        mp = format_float ((self.magnitude, self.phase_d), use_e = True)", "        mp = format_float ((self.magnitude, self.phase), use_e = True)", ['C19', 'C18']),
+ ('angle-inc-sign', 'mininec/mininec.py', "        a   = self.initial + idx * self.inc\n        return a", "        a   = self.initial + idx * abs (self.inc)\n        return a", ['C16']),
 ]
 
 
